@@ -174,14 +174,15 @@ def case_bw(sp):
     horder = choice(2, "set_order")
     prog = Prog(spec, ranks={"a": horder, "b": 1 - horder, "c": 5, "h": 6, "d": 7, "u": 8, "y1": 10, "y2": 11})
     requested, others = ["a", "b"] + (["u"] if unused else []), ["c", "d", "h", "y1", "y2"] + ([] if unused else ["u"])
+    strided = pre and choice(2, "pre_existing_grad_is_non_contiguous") == 1
     if pre:
-        set_grad(prog["a"], "a")
+        set_grad(prog["a"], "a", strided=strided)
     set_grad(prog["c"], "c")
     A = CachedAStar() if cached else AStar()
     gen = choice(2, "inputs_as_generator") == 1
     ins = lambda: [prog[n] for n in requested]
     call = lambda: backward([prog["y1"], prog["y2"]], A, inputs=(x for x in ins()) if gen else ins(), retain_graph=True, parallel_chunk_size=k)
-    return _run_history(sp, prog, requested, others, call, A, e, n_calls, "backward", spec, dict(chunk=k, pre=pre, cached=cached, edit=e, generator=gen))
+    return _run_history(sp, prog, requested, others, call, A, e, n_calls, "backward", spec, dict(chunk=k, pre=pre, cached=cached, edit=e, generator=gen, pre_strided=bool(strided)))
 
 
 def case_mtl(sp):
@@ -200,11 +201,12 @@ def case_mtl(sp):
     prog = Prog(spec, ranks={"p0": horder, "p1": 1 - horder})
     un = "us" if where_unused == 1 else "ut"
     requested, others = ["q0", "p0", "p1", "q1"] + ([un] if where_unused else []), ["z", "d", "f", "loss0", "loss1"] + ([] if where_unused else [un])
+    strided = pre and choice(2, "pre_existing_grad_is_non_contiguous") == 1
     if pre:
-        set_grad(prog["q0"], "q0")
+        set_grad(prog["q0"], "q0", strided=strided)
         set_grad(prog["p1"], "p1")
     set_grad(prog["z"], "z")
     A = CachedAStar() if cached else AStar()
     call = lambda: mtl_backward([prog["loss0"], prog["loss1"]], prog["f"], A, tasks_params=[[prog["q0"]] + ([prog[un]] if where_unused == 2 else []), [prog["q1"]]],
                                 shared_params=[prog["p0"], prog["p1"]] + ([prog[un]] if where_unused == 1 else []), retain_graph=True, parallel_chunk_size=k)
-    return _run_history(sp, prog, requested, others, call, A, e, n_calls, "mtl", spec, dict(chunk=k, pre=pre, cached=cached, edit=e))
+    return _run_history(sp, prog, requested, others, call, A, e, n_calls, "mtl", spec, dict(chunk=k, pre=pre, cached=cached, edit=e, pre_strided=bool(strided)))
